@@ -196,6 +196,13 @@ func (w *fcWorld) do(g int, op *Op) string {
 			called := false
 			err := fc.UpdateJustified(ctx, fcsim.RootOf(o.T), j, f, func() ([]common.Gwei, error) {
 				called = true
+				// the caller's balances source (a justified state being loaded) takes its time: longer for some
+				// updates than for others, so that two overlapping updates finish in either order
+				if w.slow != nil {
+					for k := uint64(0); k <= (o.J.E*2+o.F.E+1)%3*2; k++ {
+						w.slow.pause()
+					}
+				}
 				if o.BalErr {
 					return nil, fmt.Errorf("scripted balances failure")
 				}
